@@ -106,6 +106,12 @@ func viaTransport(key, pkt []byte) result {
 
 // viaTransportStream reads all packets, in order, through ONE transport object (what a connection does).
 func viaTransportStream(key []byte, pkts [][]byte) []result {
+	return viaTransportStreamKeys([][]byte{key}, pkts)
+}
+
+// viaTransportStreamKeys: the session's key is keys[i] (the last one if the list is shorter) while packet i is read.
+func viaTransportStreamKeys(keys [][]byte, pkts [][]byte) []result {
+	key := keys[0]
 	var stream []byte
 	for _, p := range pkts {
 		stream = binary.LittleEndian.AppendUint32(stream, uint32(len(p)))
@@ -115,11 +121,13 @@ func viaTransportStream(key []byte, pkts [][]byte) []result {
 	out := make([]result, len(pkts))
 	var t transport.Transport
 	var terr error
-	quiet(func() { t, terr = transport.VerifNewTransport(&informator{key}, conn, mode.Intermediate) })
+	inf := &informator{key}
+	quiet(func() { t, terr = transport.VerifNewTransport(inf, conn, mode.Intermediate) })
 	if terr != nil {
 		return out
 	}
 	for i := range pkts {
+		inf.key = keys[min(i, len(keys)-1)]
 		r := &out[i]
 		var c messages.Common
 		var err error
@@ -291,13 +299,23 @@ func main() {
 					for d := n - 33; d <= n+33; d++ {
 						decl = append(decl, int64(d))
 					}
+					for d := -40; d < n-33; d++ {
+						decl = append(decl, int64(d)) // small negative lengths: 32+d still names a prefix of the plaintext
+					}
 					for _, d := range decl {
 						plain := mtp1.Plain(m, int32(d), pat(plainLen-32-n, func(i int) byte { return byte(0xb0 + i) }))
 						inside := d >= 0 && 32+d <= int64(len(plain))
-						for mk := 0; mk < 2; mk++ {
+						for mk := 0; mk < 3; mk++ {
 							var msgKey []byte
 							legit := false
-							if mk == 0 && inside {
+							if mk == 2 {
+								// msg_key over the prefix a wrapped-around length computation would take
+								if d >= 0 || 32+d < 0 {
+									continue
+								}
+								h := sha1.Sum(plain[:32+d])
+								msgKey = h[4:20]
+							} else if mk == 0 && inside {
 								h := sha1.Sum(plain[:32+d])
 								msgKey = h[4:20]
 								legit = true
@@ -388,6 +406,42 @@ func main() {
 				default:
 					check("transport.ReadMsg", "history-truncated-block-aligned", id, rep, r)
 				}
+			}
+		}
+	}
+	// ---- the session's key changes while the connection lives (no key -> K1 -> K2 -> K1): every packet is
+	// judged against the key the session holds when it is read
+	{
+		k1, k2 := keys[0], keys[1]
+		m := base(12)
+		p1 := mtp1.Seal(k1, m, pat(mtp1.PadLen(12), func(i int) byte { return byte(0xe0 + i) }), 8)
+		p2 := mtp1.Seal(k2, m, pat(mtp1.PadLen(12), func(i int) byte { return byte(0xd0 + i) }), 8)
+		type step struct {
+			key  []byte
+			pkt  []byte
+			want bool
+			what string
+		}
+		steps := []step{
+			{k1, p1, true, "K1 packet under K1"}, {k1, p2, false, "K2 packet under K1"},
+			{k2, p2, true, "K2 packet after the key became K2"}, {k2, p1, false, "K1 packet after the key became K2"},
+			{k1, p1, true, "K1 packet after the key became K1 again"}, {k1, p2, false, "K2 packet after the key became K1 again"},
+		}
+		var ks, ps [][]byte
+		for _, st := range steps {
+			ks, ps = append(ks, st.key), append(ps, st.pkt)
+		}
+		for i, r := range viaTransportStreamKeys(ks, ps) {
+			id := fmt.Sprintf("transport key history #%d %s", i, steps[i].what)
+			run.Eval(id, true)
+			rep := map[string]any{"fault": "transport-key-history", "index": i}
+			switch {
+			case r.panicked:
+				run.Violation("transport.ReadMsg|key-history|panic|"+vr.MsgClass(r.pmsg)+"|"+r.fr, id+": panic: "+r.pmsg, rep)
+			case steps[i].want && (!r.ok || !r.m.Equal(m)):
+				run.Violation("transport.ReadMsg|key-history|current-key-packet-refused", id+": a packet sealed under the key the session holds now is not accepted", rep)
+			case !steps[i].want && r.ok:
+				run.Violation("transport.ReadMsg|key-history|other-key-packet-accepted", id+": a packet sealed under a key the session does not hold (any more) is accepted", rep)
 			}
 		}
 	}
